@@ -9,6 +9,9 @@ use crate::rngsim::{Entry, RCase, RClause, RFailure};
 pub enum Replay {
     Quire { property: String, case: Case, clause: Clause, step: usize, expected: String, observed: String },
     Rng { case: RCase, clause: RClause, sample: usize, observed: String },
+    /// a failure that does not reproduce in isolation (the code under test keeps hidden state
+    /// across operations): replayed as the whole single-threaded run sequence 0..=upto
+    Sequence { property: String, seed: u64, upto: u64, clause: String, observed: String },
 }
 
 pub struct Meta {
@@ -62,6 +65,15 @@ pub fn write_rng(path: &str, meta: &Meta, case: &RCase, f: &RFailure) -> std::io
     std::fs::write(path, s)
 }
 
+pub fn write_sequence(path: &str, property: &str, seed: u64, upto: u64, profile: &str, clause: &str, observed: &str) -> std::io::Result<()> {
+    let mut s = String::new();
+    s.push_str("# simcheck replay v1 — SEQUENCE replay: the failure does not reproduce from its own history alone\n");
+    s.push_str("# (the code under test keeps hidden state across operations), so the replay is the whole\n");
+    s.push_str("# single-threaded sequence of simulated runs 0..=upto under this seed, in one fresh process.\n");
+    s.push_str(&format!("property {property}\nengine sequence\ntype -\nseed {seed}\nupto {upto}\nprofile {profile}\nclause {clause}\nobserved {observed}\n"));
+    std::fs::write(path, s)
+}
+
 pub fn read(path: &str) -> Result<Replay, String> {
     let text = std::fs::read_to_string(path).map_err(|e| format!("{path}: {e}"))?;
     let mut kv: Vec<(String, String)> = Vec::new();
@@ -86,6 +98,15 @@ pub fn read(path: &str) -> Result<Replay, String> {
         kv.iter().find(|(a, _)| a == k).map(|(_, v)| v.clone()).ok_or(format!("missing field {k}"))
     };
     let engine = get("engine")?;
+    if engine == "sequence" {
+        return Ok(Replay::Sequence {
+            property: get("property")?,
+            seed: get("seed")?.parse().map_err(|_| "bad seed")?,
+            upto: get("upto")?.parse().map_err(|_| "bad upto")?,
+            clause: get("clause")?,
+            observed: get("observed")?,
+        });
+    }
     let qt = QT::parse(&get("type")?).ok_or("bad type")?;
     match engine.as_str() {
         "quire" => {
